@@ -137,6 +137,7 @@ func (r *runner) runShard(idx int, shard string) (*core.Result, []crash, error) 
 		}
 		ctx, cancel := context.WithDeadline(context.Background(), r.deadline.Add(90*time.Second))
 		cmd := exec.CommandContext(ctx, r.worker, args...)
+		cmd.Dir = emptyDir(r.worker)
 		cmd.Env = append(append(goEnv(), "GOMAXPROCS=1", "GORACE=halt_on_error=1 exitcode=66"), r.extraEnv...)
 		var out, errb bytes.Buffer
 		cmd.Stdout, cmd.Stderr = &out, &errb
@@ -487,6 +488,14 @@ func check(prop, tier string, seed int64, scratch string, t0 time.Time) int {
 	return exit
 }
 
+// emptyDir returns an empty directory next to the worker binary: the library searches the current
+// directory for modules it cannot find, so workers must run where there is nothing to find.
+func emptyDir(worker string) string {
+	d := filepath.Join(filepath.Dir(worker), "cwd")
+	os.MkdirAll(d, 0o755)
+	return d
+}
+
 func round(f float64) float64 { return float64(int64(f*100)) / 100 }
 
 func oneLine(s string, n int) string {
@@ -501,6 +510,7 @@ func runWorker(worker string, extraEnv []string, args ...string) ([]byte, error)
 	ctx, cancel := context.WithTimeout(context.Background(), 120*time.Second)
 	defer cancel()
 	cmd := exec.CommandContext(ctx, worker, args...)
+	cmd.Dir = emptyDir(worker)
 	cmd.Env = append(append(goEnv(), "GOMAXPROCS=1"), extraEnv...)
 	var out, errb bytes.Buffer
 	cmd.Stdout, cmd.Stderr = &out, &errb
@@ -524,6 +534,7 @@ func confirm(worker string, extraEnv []string, prop, tier, path, fingerprint str
 	for i := 0; i < n; i++ {
 		ctx, cancel := context.WithTimeout(context.Background(), 90*time.Second)
 		cmd := exec.CommandContext(ctx, worker, "replay", prop, tier, path)
+		cmd.Dir = emptyDir(worker)
 		cmd.Env = append(append(goEnv(), "GOMAXPROCS=1", "GORACE=halt_on_error=1 exitcode=66"), extraEnv...)
 		var out, errb bytes.Buffer
 		cmd.Stdout, cmd.Stderr = &out, &errb
